@@ -11,7 +11,7 @@ EXTENDS MonRoute
 Init == [i |-> 0, viol |-> {}, R |-> RInit,
          seenE2e |-> {}]        \* <<origin, e2e>> of requests already answered (a retransmission may be answered 5012: C17)
 
-Step(M, st) ==
+StepN(M, st) ==
   LET M0 == [M EXCEPT !.i = @ + 1]
       R  == M0.R
       feed == IsFeed(st)
@@ -46,4 +46,5 @@ Step(M, st) ==
       answered == {<<m.oh, m.e2e>> : j \in {k \in answers : feed /\ m.req}}
   IN [M0 EXCEPT !.viol = @ \cup {[sig |-> s, at |-> M0.i] : s \in sigs}, !.R = RUpdate(R, st),
                 !.seenE2e = @ \cup (IF feed /\ Len(st.act.ms) = 1 THEN answered ELSE {})]
+Step(M, s0) == StepN(M, Norm(s0))
 =============================================================================
